@@ -244,7 +244,7 @@ pub fn seeded_runs(ctx: &mut Ctx, prop: &str, oracles: u32, clauses: u32, quick_
         if !quick_only {
             // value offsets that need four bytes on disk (value file beyond 16 MiB): the chain head's record is rewritten
             let specs16m = vec![SeedSpec { file: "val", boundary: 16 * 1024 * 1024, eps: 16, free_slots: 2, val_pad: 0 }];
-            seeded_group(ctx, prop, oracles, clauses, 2, vec![3, 200], &specs16m, 120, 5.0);
+            seeded_group(ctx, prop, oracles, clauses, 2, vec![3, 200], &specs16m, 120, 15.0);
         }
         if !quick_only {
             let specs3 = vec![SeedSpec { file: "val", boundary: 16 * 1024, eps: 16, free_slots: 0 , val_pad: 0}, SeedSpec { file: "key", boundary: 16 * 1024, eps: 16, free_slots: 0 , val_pad: 0}];
